@@ -286,7 +286,10 @@ func playOne(id int, d Desc) e2eRecord {
 	rec.Result = runClient(s, 25*time.Second)
 	// watchdog outcomes depend on wall-clock time (the harness' own 25 s limit; the Client's
 	// 10 s DTS-RTC cap needs less than 5 s of scheduling delay): accept them only if they
-	// reproduce three times
+	// reproduce three times. A client that silently stops making progress (for instance: a
+	// stream processor that waits for a token no track processor will send) ends here as
+	// "timeout" and is an oracle failure (client-stopped / stall-with-unsupported-traf), never a
+	// harness hang: Close() cancels the Client's context.
 	for try := 0; try < 2; try++ {
 		if rec.Result.Outcome != "timeout" && !(rec.Desc.Cap && rec.Desc.Addr != "range-implicit" && rec.Result.Outcome != "dtsrtc") {
 			break
@@ -579,6 +582,73 @@ func main() {
 			}
 		}
 		if d.Kind == "fmp4" {
+			nDecl, nAbs, withTraf, ownMoof := 0, 0, false, false
+			for _, st := range d.streams() {
+				vi := -1
+				for i, t := range st.Tracks {
+					if t.isVideo() {
+						vi = i
+						break
+					}
+				}
+				for _, u := range st.Unsup {
+					if u.Absent {
+						nAbs++
+						continue
+					}
+					nDecl++
+					dist["e2e:fmp4:init-unsupported:codec:"+u.Codec]++
+					switch {
+					case vi >= 0 && u.Before <= vi:
+						dist["e2e:fmp4:init-unsupported:before-h264"]++
+					case u.Before >= len(st.Tracks):
+						dist["e2e:fmp4:init-unsupported:after-all-supported"]++
+					case u.Before == 0:
+						dist["e2e:fmp4:init-unsupported:before-all-supported(no-h264)"]++
+					default:
+						dist["e2e:fmp4:init-unsupported:between-supported"]++
+					}
+				}
+				for k := d.firstSeg(st); k >= 0 && k < len(st.Segs); k++ {
+					for _, p := range st.Segs[k].Parts {
+						sup := 0
+						for _, pt := range p.Tracks {
+							if pt.Track >= 0 {
+								sup++
+							}
+						}
+						for ti, pt := range p.Tracks {
+							if pt.Track >= 0 {
+								continue
+							}
+							withTraf = true
+							switch {
+							case sup == 0:
+								ownMoof = true
+							case ti == 0:
+								dist["e2e:fmp4:unsupported-traf:first-in-moof"]++
+							case ti == len(p.Tracks)-1:
+								dist["e2e:fmp4:unsupported-traf:last-in-moof"]++
+							default:
+								dist["e2e:fmp4:unsupported-traf:between-trafs"]++
+							}
+						}
+					}
+				}
+			}
+			dist[fmt.Sprintf("e2e:fmp4:init-unsupported-tracks:%d", nDecl)]++
+			dist[fmt.Sprintf("e2e:fmp4:undeclared-track-ids:%d", nAbs)]++
+			if withTraf {
+				dist["e2e:fmp4:unsupported-traf:streams-with-trafs-downloaded"]++
+				if rec.Result.Outcome == "eos" {
+					dist["e2e:fmp4:unsupported-traf:played-to-eos"]++
+				}
+			} else if nDecl > 0 {
+				dist["e2e:fmp4:init-unsupported:without-trafs"]++
+			}
+			if ownMoof {
+				dist["e2e:fmp4:unsupported-traf:streams-with-a-moof-of-its-own"]++
+			}
 			if b, ok := firstLeadBase(&d.Leading, d.firstSeg(&d.Leading)); ok {
 				switch {
 				case b == 0:
@@ -667,6 +737,9 @@ func main() {
 		"distinct_nontrivial": distinct,
 		"rule": "end-to-end streams from splitmix64(seed, index): fMP4 or MPEG-TS; 1 video + 0..3 audio (or audio only) in one playlist or as renditions; " +
 			"MPEG-TS PMTs with 0..2 unsupported elementary streams (MPEG-1 audio, AC-3, Opus, H265, MPEG-1/2/4 video) before / between / after the supported ones, with or without PES data; " +
+			"fMP4 playlists with 0..2 tracks the client does not process: init tracks with an unsupported codec (MPEG-1 audio, AC-3, LPCM, MJPEG, MPEG-4 video, MPEG-1/2 video) " +
+			"before / between / after the supported ones and track IDs the init section does not declare, with trafs in every / some / no segment at arbitrary positions among the " +
+			"supported tracks' trafs or in a moof of their own (renditions: undeclared IDs only; drawn after everything else); " +
 			"timescales from a realistic set or random; origin 0..2^40 (fMP4) / anywhere on the 33-bit circle incl. a wrap inside the stream (MPEG-TS); " +
 			"positive/negative pts offsets; 1..3 fragments per segment; whole-file or byte-range addressing; PROGRAM-DATE-TIME none/all/alternate segments; " +
 			"VOD, live (sliding window), EVENT, ENDLIST-without-type. distinct by SHA-256 of the description; non-trivial = played to EOS AND >= 3 units delivered " +
